@@ -278,6 +278,49 @@ def build_graph(gspec):
     return graph(lists, field_names=fn, scale=gspec["scale"]), cols
 
 
+def check_scale_recompute(res, spec, target):
+    """scale() stores what it computed; after a further fill, scale(recompute=True) gives - and stores -
+    the integral of the histogram as it is now, and rescaling starts from that."""
+    case = {"law": "scale-recompute", "hist": spec, "target": target}
+    cause = {"law": "scale-recompute", "dim": _dim(spec)}
+    edges, bins = spec["edges"], spec["bins"]
+    axes = R.unify(edges)
+    coord = [(a[0] + a[1]) / 2.0 for a in axes]
+    after = copy.deepcopy(bins)
+    cell = after
+    for _ in range(len(axes) - 1):
+        cell = cell[0]
+    cell[0] = cell[0] + 2
+    i_old, _m, _d = M.integral_info(edges, bins)
+    i_new, mag, decidable = M.integral_info(edges, after)
+    problems = []
+    if i_old == 0 or i_new == 0 or i_old == i_new:
+        return case
+    h = build_hist(dict(spec, n_out=0))
+    try:
+        first = h.scale()
+        h.fill(coord if len(axes) > 1 else coord[0], 2)
+        again = h.scale(recompute=True)
+        stored = h.scale()
+        if not M.close(first, float(i_old), hint=float(_m)):
+            problems.append(("scale-before", first, float(i_old)))
+        if not M.close(again, float(i_new), hint=float(mag)):
+            problems.append(("recomputed-scale", again, float(i_new)))
+        if not M.close(stored, float(i_new), hint=float(mag)):
+            problems.append(("stored-scale-after-recompute", stored, float(i_new)))
+        if not problems:
+            h2 = h.scale(target)
+            h2 = h if h2 is None else h2
+            got = h2.scale(recompute=True)
+            if not M.close(got, float(target), hint=abs(float(target))):
+                problems.append(("rescale-after-recompute", got, float(target)))
+    except Exception as e:
+        problems.append(("exception", _exc(e), "scales"))
+    res.case(nontrivial=True, outcome=("recompute", repr(problems)[:60]))
+    _report(res, case, problems, cause)
+    return case
+
+
 def check_graph_scale(res, gspec, targets, via="method"):
     case = {"law": "graph-scale", "graph": gspec, "targets": list(targets), "via": via}
     names, dim = list(gspec["names"]), gspec["dim"]
@@ -1019,6 +1062,18 @@ def _unequal_pairs(tier):
         last_axis = near if dim == 1 else near[-1]
         last_axis[-1] = math.nextafter(float(last_axis[-1]), R.INF)
         other(shape, pools, "near", edges_b=near)
+        # edges of very small magnitude that differ a lot relatively (and by less than 1e-9 absolutely):
+        # the tolerance of add is relative (edges_rel_tol=1e-9, edges_abs_tol=0)
+        if dim == 1 and shape[0] >= 2:
+            tiny = [float(e) * 2.0 ** -36 for e in edges]
+            moved = list(tiny)
+            moved[1] = (tiny[0] + tiny[1]) / 2 if tiny[1] != tiny[0] else tiny[1]
+            ta = {"edges": tiny, "bins": M.nest(M.coded("int", M.ncells(shape)), shape)}
+            tb = {"edges": moved, "bins": M.nest(M.coded("signed", M.ncells(shape)), shape)}
+            if _edge_relation(tiny, moved) == "different":
+                out.append((ta, tb, "tiny-different"))
+                out.append((tb, ta, "tiny-different"))
+            out.append((ta, {"edges": list(tiny), "bins": tb["bins"]}, "tiny-same"))
     return out
 
 
@@ -1131,6 +1186,9 @@ def run_shard(p, tier):
             for via in VIAS[1:]:
                 for t in targets[1:4]:
                     check_hist_scale(res, s, [t], via, False)
+        for spec in _mine(M.coded_specs(tier, dims=(1, 2)), p):
+            for t in targets[:2]:
+                check_scale_recompute(res, spec, t)
         # contents and cell sizes of very small magnitude (exact powers of two): a scale that is tiny
         # is not a zero scale
         for spec in _mine(M.coded_specs(tier, dims=(1, 2)), p):
@@ -1248,6 +1306,8 @@ def replay(case):
         check_csv(res, case["hist"], case["mode"], case["separator"])
     elif law == "graph-csv":
         check_graph_csv(res, case["graph"], case["separator"])
+    elif law == "scale-recompute":
+        check_scale_recompute(res, case["hist"], case["target"])
     elif law == "csv-flow":
         check_csv_flow(res, case["hist"], case["element_duplicate"], tuple(case["overrides"]))
     else:
